@@ -202,12 +202,14 @@ def get_app():
         # application-defined request attributes (stored by the framework in the environ of that request)
         m = rq.query.get('m')
         rq.who = 'user-' + m
+        # a lazily computed attribute: a descriptor stored on the request is evaluated for the request that reads it
+        rq.lazy = property(lambda req: 'lazy-' + req.query.get('m') + '-' + req.path)
         rq.cart = []
         rq.cart.append(rq.path)
         rq.cart.append(rq.who)
         # ... and the request as a mapping over its environ, the client address, the authentication pair
-        return 'who=%s cart=%r keys=%r map=%r addr=%r route=%r auth=%r' % (
-            rq.who, rq.cart, sorted(k for k in rq.environ if k.startswith('ombott.request.ext.')),
+        return 'who=%s lazy=%s/%s cart=%r keys=%r map=%r addr=%r route=%r auth=%r' % (
+            rq.who, rq.lazy, rq.lazy, rq.cart, sorted(k for k in rq.environ if k.startswith('ombott.request.ext.')),
             (rq['QUERY_STRING'], rq.get('HTTP_X_M'), len(rq) == len(rq.environ), sorted(k for k in rq.keys() if k.startswith('HTTP_X_')), 'PATH_INFO' in list(rq)),
             rq.remote_addr, rq.remote_route, rq.auth)
 
@@ -235,6 +237,8 @@ def get_app():
 
     # a route registered through the router with user data of its own attached (inert for the framework)
     app.router.add('/meta', 'POST', meta_post, meta={'max_body_size': 100000, 'max_memfile_size': 100000})
+    # an application page for refused uploads (the refusal itself is an error object the framework keeps for all requests)
+    app.error(413)(lambda err: 'custom page: upload refused for %s (%s)' % (rq.query.get('m'), err.status_line))
     app.route('/bigfile', 'GET', bigfile)
     app.route('/prepared', 'GET', prepared)
     app.route('/session2', 'GET', session2)
